@@ -311,6 +311,29 @@ func c16Run(r *simkit.Run) {
 		panic(fmt.Sprintf("writing the served block (%s): %+v", c16Kinds[kind], err))
 	}
 
+	// a second way of lying: the source hands out the signed block map of the real block (so it does not even need
+	// a suffrage key) and serves the tampered items under it - the checksums of the map do not fit those items
+	mapNote := "block map re-signed, checksums recomputed"
+	sigSuffix := ""
+
+	if kind != 0 && r.Flag("map_of_the_real_block") {
+		src0 := filepath.Join(root, "source-real")
+		if err := os.MkdirAll(src0, 0o700); err != nil {
+			panic(err)
+		}
+
+		r.Do("setup", func() { bm, err = c16WriteBlock(src0, height, local, real, manifest) })
+
+		if err != nil {
+			panic(fmt.Sprintf("writing the real block: %+v", err))
+		}
+
+		mapNote = "under the untouched block map of the real block (checksums of the map do not fit the tampered items)"
+		sigSuffix = ":with-the-map-of-the-real-block"
+
+		r.Probe("tampered_items_under_the_real_map")
+	}
+
 	srcReaders := c16Readers(src)
 
 	// would the repository's validator accept what the source serves?
@@ -462,9 +485,9 @@ func c16Run(r *simkit.Run) {
 	})
 
 	if verr != nil {
-		r.Fail("stored-block-fails-validator", c16Kinds[kind],
-			"the source served a block with %s (block map re-signed, checksums recomputed, manifest of the real block); BlockImporter stored it, but IsValidBlockFromLocalFS on the stored files says: %v",
-			c16Kinds[kind], verr)
+		r.Fail("stored-block-fails-validator", c16Kinds[kind]+sigSuffix,
+			"the source served a block with %s (%s, manifest of the real block); BlockImporter stored it, but IsValidBlockFromLocalFS on the stored files says: %v",
+			c16Kinds[kind], mapNote, verr)
 	}
 }
 
@@ -474,7 +497,7 @@ func init() {
 		Run:         c16Run,
 		Real:        []string{"isaacblock.BlockImporter + LocalFSImporter (files in a per-run directory)", "isaacblock.LocalFSWriter (writes the served block)", "isaac.BlockItemReaders + default item reader", "isaacblock.IsValidBlockFromLocalFS (the reference validator)", "isaacdatabase.LeveldbBlockWrite on memory storage", "voteproof / operation / state validation"},
 		Stub:        []string{"network between the sync source and the importer (items are read from the source's directory)", "database merge (flag)"},
-		Rule:        "each run writes a real block (0-4 operations and states, 1-3 voters) and serves it untouched or with one of 11 tamperings (extra/missing/replaced state or operation, foreign states or operations tree, proposal or voteproofs of another block, state of another height), written by the real LocalFSWriter so that checksums and the signed block map fit the tampered items while the manifest stays the real one. 1-3 tasks import the items in a drawn order under seeded interleaving; when Save succeeds, IsValidBlockFromLocalFS must accept the stored block. distinct = event-log hash",
+		Rule:        "each run writes a real block (0-4 operations and states, 1-3 voters) and serves it untouched or with one of 11 tamperings (extra/missing/replaced state or operation, foreign states or operations tree, proposal or voteproofs of another block, state of another height), written by the real LocalFSWriter so that checksums and the signed block map fit the tampered items while the manifest stays the real one. In half of the tampered runs the source instead hands out the untouched block map of the real block and serves the tampered items under it. 1-3 tasks import the items in a drawn order under seeded interleaving; when Save succeeds, IsValidBlockFromLocalFS must accept the stored block. distinct = event-log hash",
 		Assumptions: []string{"the chain of block maps pins the manifest, so tamperings keep the manifest of the real block", "the untouched block must be importable and valid (otherwise the harness is wrong: trouble, not a violation)"},
 	})
 }
